@@ -3,6 +3,8 @@
 package v1
 
 import (
+	"reflect"
+
 	"github.com/fatedier/frp/pkg/config/types"
 	"github.com/fatedier/frp/pkg/msg"
 	"github.com/fatedier/frp/verif"
@@ -153,4 +155,67 @@ func verif_roundtrip_SUDP(c *SUDPProxyConfig) {
 	verifBaseRoundTrip(&c.ProxyBaseConfig, &d.ProxyBaseConfig)
 	verif.Assert(d.Secretkey == c.Secretkey, "Secretkey")
 	verif.Assert(verif.Same(d.AllowUsers, c.AllowUsers), "AllowUsers")
+}
+
+// NewProxyConfigurerByType builds the configuration object by reflection from
+// the table proxyConfigTypeMap. Reflection is outside the engine: callers see
+// this replacement (assumption A-STUB: reflect.New(T).Interface() is a new
+// zeroed *T), and the lemma below checks on every run that the real table maps
+// each of the eight type names to the struct type the replacement uses and has
+// no other entry.
+//
+//verif:stub ~/pkg/config/v1.NewProxyConfigurerByType
+func verifStubNewProxyConfigurerByType(proxyType ProxyType) ProxyConfigurer {
+	switch proxyType {
+	case ProxyTypeTCP:
+		c := &TCPProxyConfig{}
+		c.Type = string(proxyType)
+		return c
+	case ProxyTypeUDP:
+		c := &UDPProxyConfig{}
+		c.Type = string(proxyType)
+		return c
+	case ProxyTypeHTTP:
+		c := &HTTPProxyConfig{}
+		c.Type = string(proxyType)
+		return c
+	case ProxyTypeHTTPS:
+		c := &HTTPSProxyConfig{}
+		c.Type = string(proxyType)
+		return c
+	case ProxyTypeTCPMUX:
+		c := &TCPMuxProxyConfig{}
+		c.Type = string(proxyType)
+		return c
+	case ProxyTypeSTCP:
+		c := &STCPProxyConfig{}
+		c.Type = string(proxyType)
+		return c
+	case ProxyTypeXTCP:
+		c := &XTCPProxyConfig{}
+		c.Type = string(proxyType)
+		return c
+	case ProxyTypeSUDP:
+		c := &SUDPProxyConfig{}
+		c.Type = string(proxyType)
+		return c
+	}
+	return nil
+}
+
+//verif:det-fn reflect.TypeOf
+//verif:table ~/pkg/config/v1.proxyConfigTypeMap
+
+//verif:lemma
+//verif:props C18
+func verif_proxyConfigTypeMap() {
+	verif.Assert(len(proxyConfigTypeMap) == 8, "eight_proxy_types")
+	verif.Assert(proxyConfigTypeMap[ProxyTypeTCP] == reflect.TypeOf(TCPProxyConfig{}), "tcp_maps_to_its_struct")
+	verif.Assert(proxyConfigTypeMap[ProxyTypeUDP] == reflect.TypeOf(UDPProxyConfig{}), "udp_maps_to_its_struct")
+	verif.Assert(proxyConfigTypeMap[ProxyTypeHTTP] == reflect.TypeOf(HTTPProxyConfig{}), "http_maps_to_its_struct")
+	verif.Assert(proxyConfigTypeMap[ProxyTypeHTTPS] == reflect.TypeOf(HTTPSProxyConfig{}), "https_maps_to_its_struct")
+	verif.Assert(proxyConfigTypeMap[ProxyTypeTCPMUX] == reflect.TypeOf(TCPMuxProxyConfig{}), "tcpmux_maps_to_its_struct")
+	verif.Assert(proxyConfigTypeMap[ProxyTypeSTCP] == reflect.TypeOf(STCPProxyConfig{}), "stcp_maps_to_its_struct")
+	verif.Assert(proxyConfigTypeMap[ProxyTypeXTCP] == reflect.TypeOf(XTCPProxyConfig{}), "xtcp_maps_to_its_struct")
+	verif.Assert(proxyConfigTypeMap[ProxyTypeSUDP] == reflect.TypeOf(SUDPProxyConfig{}), "sudp_maps_to_its_struct")
 }
